@@ -859,7 +859,7 @@ def parse_page_selectors(rule):
 
                     try:
                         nth_values = tinycss2.nth.parse_nth(nth)
-                    except (AttributeError, ValueError):
+                    except (AttributeError, StopIteration, ValueError):
                         # tinycss2 raises on some malformed an+b values
                         return None
                     if nth_values is None:
